@@ -1,9 +1,10 @@
 (* C20 — drop-in agreement with strings/bytes on ASCII and caseless text.
    ASCII class: proved here for Compare, EqualFold, Index, Contains,
-   LastIndex, HasPrefix, HasSuffix, TrimPrefix, TrimSuffix, Count, Cut
-   against byte-exact models of the namesakes (StdAscii.v; the models are
-   validated against the real strings/bytes functions on every run).
-   The remaining namesakes and the caseless class are decided by the direct
+   LastIndex, HasPrefix, HasSuffix, TrimPrefix, TrimSuffix, CutPrefix,
+   CutSuffix, Count, Cut, IndexRune, ContainsRune, IndexAny, ContainsAny,
+   LastIndexAny against byte-exact models of the namesakes (StdAscii.v,
+   StdAscii2.v).  IndexByte / LastIndexByte are characterised byte-exactly in
+   C10; the caseless class is decided by the direct
    comparison with strings/bytes in the C20 run (see C20_partial note in
    DESIGN.md); EqualFold holds on ALL byte strings by C02. *)
 From Strcase Require Import Base Utf8 Utf8Facts Spec SpecFacts SpecIndex SpecAffix Fold FoldFacts FoldTables FoldFacts121 StdSpec StdAscii.
@@ -35,6 +36,31 @@ Theorem C20_ascii_cut : cut fold121 s t = std_cut (lower s) (lower t).
 Proof. exact (ascii_cut s t Hs Ht). Qed.
 End A.
 Print Assumptions C20_ascii_cut.
+
+(* the single-character and set searches, and the Cut* pair (ASCII arguments, ASCII rune) *)
+From Strcase Require Import StdAscii2.
+Theorem C20_ascii_index_rune : forall s, ascii s -> forall r, 0 <= r < 128 ->
+  index_rune fold121 s r = std_index_byte (lower s) (lower_ascii r).
+Proof. exact ascii_index_rune. Qed.
+Theorem C20_ascii_contains_rune : forall s, ascii s -> forall r, 0 <= r < 128 ->
+  contains_rune fold121 s r = (0 <=? std_index_byte (lower s) (lower_ascii r)).
+Proof. exact ascii_contains_rune. Qed.
+Theorem C20_ascii_index_any : forall s chars, ascii s -> ascii chars ->
+  index_any fold121 s chars = std_index_any (lower s) (lower chars).
+Proof. exact ascii_index_any. Qed.
+Theorem C20_ascii_contains_any : forall s chars, ascii s -> ascii chars ->
+  contains_any fold121 s chars = (0 <=? std_index_any (lower s) (lower chars)).
+Proof. exact ascii_contains_any. Qed.
+Theorem C20_ascii_last_index_any : forall s chars, ascii s -> ascii chars ->
+  last_index_any fold121 s chars = std_last_index_any (lower s) (lower chars).
+Proof. exact ascii_last_index_any. Qed.
+Theorem C20_ascii_cut_prefix : forall s t, ascii s -> ascii t ->
+  cut_prefix fold121 s t = (std_trim_prefix (lower s) (lower t), std_has_prefix (lower s) (lower t)).
+Proof. exact ascii_cut_prefix. Qed.
+Theorem C20_ascii_cut_suffix : forall s t, ascii s -> ascii t ->
+  cut_suffix fold121 s t = (std_trim_suffix (lower s) (lower t), std_has_suffix (lower s) (lower t)).
+Proof. exact ascii_cut_suffix. Qed.
+Print Assumptions C20_ascii_last_index_any.
 
 Theorem C20_equal_fold_all : forall s t, wf s -> wf t ->
   equal_fold fold121 s t = std_equal_fold R121 s t.
